@@ -221,7 +221,10 @@ func VerifC14Bearer() {
 // VerifC14Default: the transport-wide default credential is applied only when
 // the operation has none of its own and no Authorization header is already set.
 func VerifC14Default() {
-	opAuth := zv.Choose("opAuth", 2) == 1
+	// the operation's own credential: none, a bearer token, or an API key that
+	// does not travel in the Authorization header (query / custom header)
+	opKind := zv.Choose("opAuth", 4)
+	opAuth := opKind == 1
 	hdrSet := zv.Choose("hdrSet", 2) == 1
 	defSet := zv.Choose("default", 2) == 1
 	rt := &Runtime{Host: "h", BasePath: "/", DefaultMediaType: "application/json",
@@ -236,8 +239,13 @@ func VerifC14Default() {
 			}
 			return nil
 		})}
-	if opAuth {
+	switch opKind {
+	case 1:
 		op.AuthInfo = BearerToken("op-token")
+	case 2:
+		op.AuthInfo = APIKeyAuth("api_key", "query", "op-key")
+	case 3:
+		op.AuthInfo = APIKeyAuth("X-Api-Key", "header", "op-key")
 	}
 	req, err := rt.CreateHttpRequest(op)
 	zv.Assert("request-builds", err == nil)
@@ -251,9 +259,17 @@ func VerifC14Default() {
 		want = "Bearer op-token"
 	case hdrSet:
 		want = "Custom abc"
+	case opKind >= 2:
+		want = "" // the operation has a credential of its own: the default is not applied
 	case defSet:
 		want = "Bearer default-token"
 	}
 	zv.Assert("default-auth-only-when-nothing-else", got == want)
+	if opKind == 2 {
+		zv.Assert("operation-key-sent-in-query", req.URL.Query().Get("api_key") == "op-key")
+	}
+	if opKind == 3 {
+		zv.Assert("operation-key-sent-in-header", req.Header.Get("X-Api-Key") == "op-key")
+	}
 	zv.Reach("built")
 }
